@@ -19,6 +19,7 @@ import (
 	"verifharness/engine"
 	"verifharness/fw"
 	"verifharness/gadget"
+	"verifharness/harn"
 	"verifharness/inst"
 	"verifharness/ref"
 )
@@ -536,7 +537,11 @@ func init() {
 				case "compiled":
 					in := getInst(name).Restrict(1)
 					cp := ctx.Once("bigcs/"+name, func() any {
-						cs, err := frontend.Compile(ecc.BN254.ScalarField(), r1cs.NewBuilder, in.Clone().VerifierCircuit())
+						var cs constraint.ConstraintSystem
+						var err error
+						harn.Protect(func() {
+							cs, err = frontend.Compile(ecc.BN254.ScalarField(), r1cs.NewBuilder, in.Clone().VerifierCircuit())
+						})
 						if err != nil {
 							return err
 						}
